@@ -495,10 +495,16 @@ func (s *ReceiveStream) getControlFrame(now monotime.Time) (_ ackhandler.Frame, 
 	}
 
 	s.queuedMaxStreamData = false
+	offset := s.flowController.GetWindowUpdate(now)
+	if offset == 0 {
+		// No update is due any more, e.g. because the final offset was received in the
+		// meantime. Don't advertise a limit of 0.
+		return ackhandler.Frame{}, false, false
+	}
 	return ackhandler.Frame{
 		Frame: &wire.MaxStreamDataFrame{
 			StreamID:          s.streamID,
-			MaximumStreamData: s.flowController.GetWindowUpdate(now),
+			MaximumStreamData: offset,
 		},
 	}, true, false
 }
